@@ -264,10 +264,23 @@ pub fn gen(rng: &mut Rng, thorough: bool, out: &mut Sink) {
         // WordPiece: a vocabulary entry that is exactly the continuation prefix
         if let Model::WordPiece { vocab, .. } = &mut def.model {
             let prefix = def.config.templates.iter().find(|t| t.position == InsertionPosition::WordContinuation).map(|t| t.content.clone());
-            if let Some(p) = prefix {
+            if let Some(p) = prefix.clone() {
                 if !p.is_empty() && rng.chance(1, 2) && !vocab.iter().any(|t| t.bytes == p.as_bytes()) {
                     let id = vocab.iter().map(|t| t.id).max().unwrap_or(0).wrapping_add(1);
-                    vocab.push(Token { id, bytes: p.into_bytes() });
+                    vocab.push(Token { id, bytes: p.clone().into_bytes() });
+                }
+            }
+            // two entries sharing one id (aliases), a word-initial one and a continuation one whose byte order runs
+            // against the order start-entries-then-continuations: the export orders by id, then bytes (seed C14o)
+            if rng.chance(1, 2) {
+                let p = prefix.unwrap_or_default();
+                let id = vocab.iter().map(|t| t.id).max().unwrap_or(0).wrapping_add(1);
+                let (start, cont): (&[u8], &[u8]) = if rng.chance(1, 2) { (b"~zq", b"!zq") } else { (b"!zq", b"~zq") };
+                let mut cbytes = p.into_bytes();
+                cbytes.extend_from_slice(cont);
+                if id != u32::MAX && !vocab.iter().any(|t| t.bytes == start || t.bytes == cbytes) {
+                    vocab.push(Token { id, bytes: start.to_vec() });
+                    vocab.push(Token { id, bytes: cbytes });
                 }
             }
         }
